@@ -35,6 +35,12 @@ def run_batch(ctx, n, with_model=True):
             # values that compare equal in Python but print differently, one after the other on the same evaluator
             for v in (1, 1.0, True, 0, 0.0, False):
                 envs.append(dict(envs[0], **{prog.splitters[0]: v}))
+        if prog.splitters and prog.cond_fields():
+            # a record on which BOTH routing and key building fail: which error is reported is part of the behaviour (routing comes first)
+            sp = prog.splitters[0]
+            for cf in [f for f in prog.cond_fields() if f != sp][:1]:
+                envs.append(dict(envs[0], **{sp: 10 ** 5000, cf: object.__new__(object) if False else "\x00never-matches"}))
+                envs.append(dict(envs[0], **{sp: -(10 ** 4400), cf: None}))
         cases.append((prog, text, envs))
     # corpus: literals that are not in Unicode NFC form (combining marks, compatibility characters) stay as written
     for salt, label, operand in (("cafe\u0301", "Jose\u0301", "\u212b"), ("\u2126", "e\u0301\u0323", "\u1112\u1161\u11ab"), ("ok", "\ufb01", "A\u030a")):
